@@ -58,6 +58,7 @@ type FuncCtx struct {
 	curLoopIdx  []types.Object
 	globals     map[*types.Var]Val
 	pcParts     map[string][]string
+	nclosure    int
 	hdrOnce     sync.Once
 	hdr         string
 	hdrLines    []string
@@ -397,6 +398,12 @@ func (fx *FuncCtx) fresh(t types.Type, hint string) Val {
 		if u.NumMethods() == 0 {
 			tag := fx.declare(sortInt, hint+"_tag")
 			return VIface{tag, fx.freshStr(hint + "_s")}
+		}
+	case *types.Map:
+		if kb, ok := u.Key().Underlying().(*types.Basic); ok && kb.Info()&types.IsString != 0 {
+			if vb, ok := u.Elem().Underlying().(*types.Basic); ok && vb.Info()&types.IsString != 0 {
+				return VStrMap{ID: sanitizeIdent(hint)}
+			}
 		}
 	case *types.Tuple:
 		var out VTuple
